@@ -315,9 +315,20 @@ def generic_programs():
         ("destroy:field-write-is-null-reference", "Av a = new Av(); destroy a; a.v = 4; echo(\"still running\");", ("runtime", "null reference")),
         ("destroy:typed-slot-after-destroy", "Kn k = new Kn(); Animal a = new Dog(); destroy a; k.f(a); a = new Dog(); k.f(a);", ("ok", ["f(Animal)", "f(Animal)"])),
         ("super:private-more-specific-base-constructor", "Dr d = new Dr(); Bs b = new Bs(new Dog());", ("ok", ["Bs(Animal) public", "Dr()", "Bs(Animal) public"])),
+        ("assignment-expression-argument", "Kn k = new Kn(); Animal x = null; echo(k.g(x = new Dog())); echo(k.g(x)); Dog y = null; echo(k.g(y = new Dog()));", ("ok", ["g(Animal)", "g(Animal)", "g(Dog)"])),
         ("super:inherited-field", "Fd f = new Fd(); echo(f.viaSuper()); echo(f.viaThis());", ("ok", ["8", "8"])),
     ]
     progs += [(n, an + "function main() -> void { %s }\n" % b, e) for n, b, e in cases4]
+    # (second hunt, C12/d4, C08/d13) static initialisers inside ONE class that read or write a later static of the same class
+    progs += [
+        ("static:earlier-initialiser-writes-later-field", "class Sx { public static int early = Sx.bump(); public static int n = 10; public static function bump() -> int { n = n + 1; return n; } public constructor() -> Sx = default; }\n"
+         "function main() -> void { echo(Sx.early); echo(Sx.n); }\n", ("oneof", [["1", "10"], ["11", "11"]])),
+        ("static:constructor-in-initialiser-reads-later-field", "class Cx { public static Cx inst = new Cx(); public static int n = 5; public int seen; public int plus; public constructor() -> Cx { this.seen = n; this.plus = n + 1; } }\n"
+         "function main() -> void { echo(Cx.inst.seen); echo(Cx.inst.plus); echo(Cx.n); }\n", ("oneof", [["0", "1", "5"], ["5", "6", "5"]])),
+        ("static:later-field-first", "class Cy { public static int n = 5; public static Cy inst = new Cy(); public int seen; public constructor() -> Cy { this.seen = n; } }\n"
+         "function main() -> void { echo(Cy.inst.seen); echo(Cy.n); }\n", ("ok", ["5", "5"])),
+        ("super:inherited-field-write", an + "class Fw extends Fb { public constructor() -> Fw { super(); } public function setIt() -> int { super.n = 9; return this.n; } }\nfunction main() -> void { Fw f = new Fw(); echo(f.setIt()); }\n", ("ok", ["9"])),
+    ]
     progs += fsz
     return progs
 
@@ -401,6 +412,12 @@ def _one(item):
         if st != "semantic":
             return name, src, "expected a Semantic rejection, got %s: %s" % (st, r.rec.get("msg")), None
         return name, src, None, "rejected"
+    if exp[0] == "oneof":
+        # the documentation leaves two readings open (textual order / on first use); both are listed, anything else is wrong
+        lines = r.rec["stdout"].split("\n")[:-1] if (st == "ok" and r.rec["stdout"]) else None
+        if lines not in exp[1]:
+            return name, src, "the program must print one of %r (the readings the documentation leaves open) but ended with %s %r %s" % (exp[1], st, r.rec.get("stdout"), r.rec.get("msg", "")), None
+        return name, src, None, tuple(lines)
     if exp[0] == "runtime":
         if st != "runtime" or exp[1] not in (r.rec.get("msg") or ""):
             return name, src, "the documented behaviour is a Runtime error (%s) but the program ended with %s: %r %s" % (exp[1], st, r.rec.get("stdout"), r.rec.get("msg", "")), None
